@@ -387,6 +387,8 @@ def to_coq(c):
 
 def classify(c, impl, spec):
     """stable class name of the first step on which the implementation differs from the Spec"""
+    if is_create(c):
+        return 'create.' + classify((c[0], c[1]) + (('tls',) if is_tls(c) else ()), impl, spec)
     if is_tls(c):
         return 'tls.' + classify(c[:2], impl, spec)
     mx, script = c
@@ -426,11 +428,16 @@ def classify(c, impl, spec):
 
 
 def is_tls(c):
-    return len(c) > 2 and c[2] == 'tls'
+    return len(c) > 2 and 'tls' in c[2]
+
+
+def is_create(c):
+    """built with the create_* constructors (+ tokio::spawn(task.run())) instead of the spawn_* functions"""
+    return len(c) > 2 and 'create' in c[2]
 
 
 def evaluate(ctx, cases, settle=None, shards=16):
-    lines = [(f'tls:{TLS_DIR}:{c[0]} {c[1]}' if is_tls(c) else f'{c[0]} {c[1]}') for c in cases]
+    lines = [('create:' if is_create(c) else '') + (f'tls:{TLS_DIR}:{c[0]} {c[1]}' if is_tls(c) else f'{c[0]} {c[1]}') for c in cases]
     impl = ctx.harness('sessions', lines, args=([str(settle)] if settle else []), shards=shards, timeout=900)
     both = ctx.coq_eval(REQ, FN, [to_coq(c) for c in cases], case_type=CASE_T, preamble='Local Open Scope string_scope.', per_shard=100)
     return impl, both
@@ -491,6 +498,22 @@ def run(ctx):
         while len(tls_cases) < (60 if ctx.quick() else 400):
             tls_cases.append(gen_tls_script(ctx.rng) + ('tls',))
         cases += tls_cases
+        # both constructor families: the same scenarios through create_tcp_server_task / create_tls_server_task
+        # (pre-bound listener, the harness spawns task.run()), in particular max_sessions 0 and 1
+        create_cases = [(m, sc, 'create') for m, sc in [(0, 'C C C C'), (0, 'C C X0 C H'), (1, 'C C C C'), (1, 'C G0 C X1 C'), (2, 'C C C G1 R2:7 C S C'),
+                                                       (3, 'C C C X1 C C R0:3 R2:4 R4:5'), (0, 'C S C'), (1, 'C H C')]]
+        create_cases += [(m, sc, 'create-tls') for m, sc in [(0, 'T T T'), (0, 'C T C'), (1, 'T C'), (1, 'C C T S'), (2, 'C C C R2:7 T T S C')]]
+        k = 0
+        while len(create_cases) < (40 if ctx.quick() else 300):
+            k += 1
+            if k % 3 == 0:
+                m, sc = gen_tls_script(ctx.rng)
+                create_cases.append((m, sc, 'create-tls'))
+            else:
+                m, sc = gen_script(ctx.rng)
+                if 'W' not in sc:
+                    create_cases.append((m, sc, 'create'))
+        cases += create_cases
         exhaustive_part = 0
         if not ctx.quick():
             # thorough: additionally every script of length 5 for max_sessions 1 and 2 (3440 each)
@@ -536,7 +559,7 @@ def run(ctx):
                 if si[0] == sspec:        # shrinking lost it (should not happen): fall back to the original case
                     small, si, sspec = c, [i], spec
                 key = classify(small, si[0], sspec)
-                ctx.violation(key, f'{"TLS server (C = TLS client, T = peer that never starts the handshake), " if is_tls(small) else ""}max_sessions={small[0]} script "{small[1]}": open connections / port / handler value after each op: implementation {si[0]} but Spec {sspec}',
+                ctx.violation(key, f'{"server built with create_*_server_task + tokio::spawn(task.run()), " if is_create(small) else ""}{"TLS server (C = TLS client, T = peer that never starts the handshake), " if is_tls(small) else ""}max_sessions={small[0]} script "{small[1]}": open connections / port / handler value after each op: implementation {si[0]} but Spec {sspec}',
                               {'cases': [list(small)], 'impl': si[0], 'spec': sspec, 'original_case': list(c), 'original_impl': i, 'original_spec': spec})
         elif i != model:
             n_model += 1
@@ -544,12 +567,14 @@ def run(ctx):
                 ctx.violation('model-differs-from-impl', f'max_sessions={c[0]} script "{c[1]}"', {'cases': [list(c)], 'impl': i, 'model': model, 'spec': spec},
                               no_failing_input=True)
     ctx.oblige('correspondence:server-sessions', n_spec == 0 and n_model == 0, f'{n_model} model / {n_spec} spec mismatches in {len(cases)} scenarios')
-    classes = {'with_blocked_reply_write': 0, 'tls_server': 0, 'tls_silent_peer_evicted': 0, 'tls_silent_peer_at_shutdown': 0, 'max0': 0, 'max1': 0, 'max2': 0, 'max3': 0, 'with_eviction': 0, 'with_garbage': 0, 'with_client_close': 0, 'with_request': 0,
+    classes = {'create_constructors': 0, 'create_constructors_max0': 0, 'with_blocked_reply_write': 0, 'tls_server': 0, 'tls_silent_peer_evicted': 0, 'tls_silent_peer_at_shutdown': 0, 'max0': 0, 'max1': 0, 'max2': 0, 'max3': 0, 'with_eviction': 0, 'with_garbage': 0, 'with_client_close': 0, 'with_request': 0,
                'with_decode': 0, 'with_shutdown': 0, 'with_handle_drop': 0, 'connect_after_stop': 0, 'three_open_at_once': 0}
     for c, b in zip(cases, both):
         spec = b.split('#')[1].split('|')
         ops = c[1].split()
         classes[f'max{c[0]}'] += 1
+        classes['create_constructors'] += is_create(c)
+        classes['create_constructors_max0'] += is_create(c) and c[0] == 0
         if is_tls(c):
             classes['tls_server'] += 1
             kinds = [o for o in ops if o in ('C', 'T')]
@@ -580,7 +605,7 @@ def run(ctx):
         classes['connect_after_stop'] += 'C' in ops[stop_at:]
         classes['three_open_at_once'] += bool(opens) and max(opens) >= 3
     if not ctx.replay:
-        need = (['with_blocked_reply_write'] if WRITE_STALL_OPS else []) + ['tls_server', 'tls_silent_peer_evicted', 'tls_silent_peer_at_shutdown', 'with_eviction', 'with_garbage', 'with_client_close', 'with_shutdown', 'with_handle_drop', 'connect_after_stop', 'max0', 'three_open_at_once']
+        need = (['with_blocked_reply_write'] if WRITE_STALL_OPS else []) + ['create_constructors', 'create_constructors_max0', 'tls_server', 'tls_silent_peer_evicted', 'tls_silent_peer_at_shutdown', 'with_eviction', 'with_garbage', 'with_client_close', 'with_shutdown', 'with_handle_drop', 'connect_after_stop', 'max0', 'three_open_at_once']
         ctx.oblige('generator-reaches-expected-classes', all(classes[k] >= 5 for k in need), str(classes))
     run_front(ctx)
     ctx.coverage.update({
